@@ -172,50 +172,44 @@ func (e *Expression) Evaluate(dc *context.DataContext, Vars map[string]reflect.V
 		//data compare
 		if l, ok1 := TypeMap[tlv.Kind().String()]; ok1 {
 			if r, ok2 := TypeMap[trv.Kind().String()]; ok2 {
-				var ll float64
-				switch l {
-				case "int", "int8", "int16", "int32", "int64":
-					ll = float64(flv.Int())
-					break
-				case "uint", "uint8", "uint16", "uint32", "uint64":
-					ll = float64(flv.Uint())
-					break
-				case "float32", "float64":
-					ll = flv.Float()
-					break
-				}
-
-				var rr float64
-				switch r {
-				case "int", "int8", "int16", "int32", "int64":
-					rr = float64(frv.Int())
-					break
-				case "uint", "uint8", "uint16", "uint32", "uint64":
-					rr = float64(frv.Uint())
-					break
-				case "float32", "float64":
-					rr = frv.Float()
-					break
+				// c: -1 less, 0 equal, 1 greater, 2 unordered (a NaN is involved)
+				var c int
+				if isFloatType(l) || isFloatType(r) {
+					// a comparison involving a float is made in float64
+					ll, rr := toFloat64(l, flv), toFloat64(r, frv)
+					switch {
+					case ll < rr:
+						c = -1
+					case ll == rr:
+						c = 0
+					case ll > rr:
+						c = 1
+					default:
+						c = 2
+					}
+				} else {
+					// two integers are compared exactly over the whole 64-bit range
+					c = compareIntegers(flv, frv, isUintType(l), isUintType(r))
 				}
 
 				switch e.ComparisonOperator {
 				case "==":
-					b = reflect.ValueOf(ll == rr)
+					b = reflect.ValueOf(c == 0)
 					break
 				case "!=":
-					b = reflect.ValueOf(ll != rr)
+					b = reflect.ValueOf(c != 0)
 					break
 				case ">":
-					b = reflect.ValueOf(ll > rr)
+					b = reflect.ValueOf(c == 1)
 					break
 				case "<":
-					b = reflect.ValueOf(ll < rr)
+					b = reflect.ValueOf(c == -1)
 					break
 				case ">=":
-					b = reflect.ValueOf(ll >= rr)
+					b = reflect.ValueOf(c == 1 || c == 0)
 					break
 				case "<=":
-					b = reflect.ValueOf(ll <= rr)
+					b = reflect.ValueOf(c == -1 || c == 0)
 					break
 				default:
 					return reflect.ValueOf(nil), errors.New(fmt.Sprintf("line %d, column %d, code: %s, Can't be recognized ComparisonOperator: %s", e.LineNum, e.Column, e.Code, e.ComparisonOperator))
@@ -267,4 +261,59 @@ LAST:
 		}
 	}
 	return reflect.ValueOf(nil), errors.New(fmt.Sprintf("line %d, column %d, code: %s, evaluate Expression err!", e.LineNum, e.Column, e.Code))
+}
+
+func isFloatType(t string) bool {
+	return t == "float32" || t == "float64"
+}
+
+func isUintType(t string) bool {
+	return t == "uint" || t == "uint8" || t == "uint16" || t == "uint32" || t == "uint64"
+}
+
+func toFloat64(t string, v reflect.Value) float64 {
+	switch {
+	case isFloatType(t):
+		return v.Float()
+	case isUintType(t):
+		return float64(v.Uint())
+	default:
+		return float64(v.Int())
+	}
+}
+
+// compareIntegers compares two integer values of any signedness as mathematical integers.
+func compareIntegers(l, r reflect.Value, lUnsigned, rUnsigned bool) int {
+	cmpU := func(a, b uint64) int {
+		if a < b {
+			return -1
+		}
+		if a > b {
+			return 1
+		}
+		return 0
+	}
+	switch {
+	case !lUnsigned && !rUnsigned:
+		a, b := l.Int(), r.Int()
+		if a < b {
+			return -1
+		}
+		if a > b {
+			return 1
+		}
+		return 0
+	case lUnsigned && rUnsigned:
+		return cmpU(l.Uint(), r.Uint())
+	case !lUnsigned: // signed vs unsigned
+		if l.Int() < 0 {
+			return -1
+		}
+		return cmpU(uint64(l.Int()), r.Uint())
+	default: // unsigned vs signed
+		if r.Int() < 0 {
+			return 1
+		}
+		return cmpU(l.Uint(), uint64(r.Int()))
+	}
 }
